@@ -173,3 +173,88 @@ Example C11_definitional_no_validation : forall c, validate VNoValidation c = Ok
 Example C11_definitional_map : forall k v c, validate (VMap k v) c = validate v (transform k c). Proof. reflexivity. Qed.
 Example C11_definitional_wrappers : forall v c, validate (VBox v) c = validate v c /\ validate (VRc v) c = validate v c /\ validate (VArc v) c = validate v c.
 Proof. repeat split. Qed.
+
+(* ================= the claim builder (added after the first audit) ================= *)
+From PV Require Import ClaimsBuilder.
+
+(* a realistic instant: 2026-10-02T00:00:00Z in nanoseconds, one hour of validity *)
+Definition now_ns : Z := 1790899200 * 1000000000.
+Definition hour_ns : Z := 3600 * 1000000000.
+Definition built : claims :=
+  {| iss := None; sub := None; aud := None; exp := Some (now_ns + hour_ns); nbf := Some now_ns; iat := Some now_ns; jti := None |}.
+Example builder_instance : claims_new now_ns hour_ns = Ok built.
+Proof. vm_compute. reflexivity. Qed.
+
+(* both directions of the iff, on both boundaries and just outside them *)
+Example C11_builder_valid_window_nonvacuous :
+  validate (VTime now_ns) built = Ok tt /\ validate (VTime (now_ns + hour_ns)) built = Ok tt /\
+  validate (VTime (now_ns + 1800 * 1000000000)) built = Ok tt /\
+  validate (VTime (now_ns - 1)) built <> Ok tt /\ validate (VTime (now_ns + hour_ns + 1)) built <> Ok tt.
+Proof.
+  pose proof (fun t => C11_builder_valid_window now_ns hour_ns built t builder_instance) as W.
+  splits.
+  - apply (proj2 (W _)). unfold now_ns, hour_ns. lia.
+  - apply (proj2 (W _)). unfold now_ns, hour_ns. lia.
+  - apply (proj2 (W _)). unfold now_ns, hour_ns. lia.
+  - intros H. apply (proj1 (W _)) in H. lia.
+  - intros H. apply (proj1 (W _)) in H. lia.
+Qed.
+(* the rejections are ClaimsError (not a panic), by evaluation *)
+Example C11_builder_valid_window_nonvacuous_computes :
+  validate (VTime (now_ns - 1)) built = Err ClaimsError /\ validate (VTime (now_ns + hour_ns + 1)) built = Err ClaimsError.
+Proof. split; vm_compute; reflexivity. Qed.
+(* a negative "duration" (representable in the model's Z, not in Rust's unsigned std Duration) gives an empty
+   window: the theorem then says the built claims are valid at NO instant *)
+Example C11_builder_valid_window_nonvacuous_negative : forall c t,
+  claims_new now_ns (-1) = Ok c -> validate (VTime t) c <> Ok tt.
+Proof. intros c t H E. apply (proj1 (C11_builder_valid_window now_ns (-1) c t H)) in E. lia. Qed.
+
+Example C11_builder_has_expiry_nonvacuous :
+  validate VHasExpiry built = Ok tt /\
+  (* whereas a claims value without exp is refused by the same validator *)
+  validate VHasExpiry {| iss := None; sub := None; aud := None; exp := None; nbf := Some now_ns; iat := None; jti := None |} = Err ClaimsError.
+Proof. split; [exact (C11_builder_has_expiry now_ns hour_ns built builder_instance)|reflexivity]. Qed.
+
+Example C11_builder_total_in_range_nonvacuous :
+  (exists c, claims_new now_ns hour_ns = Ok c) /\
+  (exists c, claims_new ts_max 0 = Ok c) /\ (exists c, claims_new 0 ts_min = Ok c) /\
+  (* the hypothesis is sharp: one nanosecond past jiff's maximum the builder panics *)
+  is_panic (claims_new ts_max 1) = true /\ ts_ok (ts_max + 1) = false.
+Proof.
+  splits; try (apply C11_builder_total_in_range; vm_compute; reflexivity); vm_compute; reflexivity.
+Qed.
+
+Definition with_all : claims := for_subject (for_audience (from_issuer built (str "issuer.example")) (str "api.example")) (str "alice").
+Example C11_builder_setters_accepted_nonvacuous :
+  validate (VFromIssuer (str "issuer.example")) (from_issuer built (str "issuer.example")) = Ok tt /\
+  validate (VForAudience (str "api.example")) (for_audience built (str "api.example")) = Ok tt /\
+  validate (VForSubject (str "alice")) (for_subject built (str "alice")) = Ok tt /\
+  (* chained as in builder code, the earlier setters survive the later ones and the time window is kept *)
+  validate (VAndThen (VFromIssuer (str "issuer.example")) (VAndThen (VForAudience (str "api.example"))
+             (VAndThen (VForSubject (str "alice")) (VTime (now_ns + 1))))) with_all = Ok tt /\
+  (* before a setter is called the validator refuses: the field is really absent in the built value *)
+  validate (VFromIssuer (str "issuer.example")) built = Err ClaimsError.
+Proof.
+  destruct (C11_builder_setters_accepted built (str "issuer.example")) as (A & _ & _).
+  destruct (C11_builder_setters_accepted built (str "api.example")) as (_ & B & _).
+  destruct (C11_builder_setters_accepted built (str "alice")) as (_ & _ & C).
+  splits; [exact A|exact B|exact C|vm_compute; reflexivity|vm_compute; reflexivity].
+Qed.
+
+Example C11_builder_setters_reject_other_values_nonvacuous :
+  validate (VFromIssuer (str "issuer.exampl")) (from_issuer built (str "issuer.example")) = Err ClaimsError /\
+  validate (VForAudience (str "api.example ")) (for_audience built (str "api.example")) = Err ClaimsError /\
+  validate (VForSubject (str "Alice")) (for_subject built (str "alice")) = Err ClaimsError /\
+  validate (VForSubject []) (for_subject built (str "alice")) = Err ClaimsError.
+Proof.
+  assert (N1 : str "issuer.example" <> str "issuer.exampl") by (vm_compute; discriminate).
+  assert (N2 : str "api.example" <> str "api.example ") by (vm_compute; discriminate).
+  assert (N3 : str "alice" <> str "Alice") by (vm_compute; discriminate).
+  assert (N4 : str "alice" <> []) by (vm_compute; discriminate).
+  destruct (C11_builder_setters_reject_other_values built _ _ N1) as (A & _ & _).
+  destruct (C11_builder_setters_reject_other_values built _ _ N2) as (_ & B & _).
+  destruct (C11_builder_setters_reject_other_values built _ _ N3) as (_ & _ & C).
+  destruct (C11_builder_setters_reject_other_values built _ _ N4) as (_ & _ & D).
+  splits; assumption.
+Qed.
+(* observation: with_token_id has no theorem in C11 (there is no jti validator in the library either) *)
